@@ -49,6 +49,7 @@ def check(ctx):
     P = ctx.project
     _pairing_dispatch(ctx, P)
     _pairing_cumsum(ctx, P)
+    _pairing_cumsum_two_axes(ctx, P)
     _pairing_public(ctx, P)
     _selection(ctx, P)
     _interp_like(ctx, P)
@@ -157,6 +158,46 @@ def _pairing_cumsum(ctx, P):
         ctx.report("R10.1", fi, inst, bad)
     else:
         ctx.ok("R10.1", inst, "data * metric(data) -> cumsum/pad/rename -> result / metric(result)")
+
+
+def _pairing_cumsum_two_axes(ctx, P):
+    """cumsum over two axes with a request per axis: each axis is weighted by what was asked for *it*, and every metric is
+    looked up for the array as it stands at that moment (after the first axis the data lies at another position)."""
+    fi = P.func("grid:Grid.cumsum")
+    for name, mw, want in (("a different request per axis", {AX: (AX,), AY: (AY, AX)}, [("mult", (AX,)), ("cumsum",), ("div", (AX,)), ("mult", (AY, AX)), ("cumsum",), ("div", (AY, AX))]),
+                           ("only the second axis weighted", {AX: None, AY: (AY,)}, [("cumsum",), ("mult", (AY,)), ("cumsum",), ("div", (AY,))])):
+        inst = f"cumsum over two axes with metric_weighted, {name}"
+        try:
+            outs = _run_cumsum(P, "center", "left", axnames=("AX", "AY"), axis_arg=[AX, AY], mw=copy.deepcopy(mw))
+        except Unmodelled as e:
+            ctx.unknown("R10.1", inst, str(e))
+            continue
+        bad = None
+        for o in outs:
+            if o.kind != "return" or not isinstance(o.value, Obj):
+                bad = f"{o.kind} {o.value}"
+                continue
+            eff = o.value.eff
+            ops = [e[0] for e in eff]
+            got = []
+            for i, e in enumerate(eff):
+                if e[0] in ("mult", "div"):
+                    m = e[1]
+                    if not (isinstance(m, Obj) and m.kind == "Metric" and isinstance(m.attrs.get("axes"), (list, tuple))):
+                        got.append((e[0], "?"))
+                        continue
+                    got.append((e[0], tuple(m.attrs["axes"])))
+                    a = m.attrs.get("array")
+                    if not (isinstance(a, Obj) and [x[0] for x in a.eff] == ops[:i]):
+                        bad = bad or f"the {'factor' if e[0] == 'mult' else 'divisor'} for axes {tuple(m.attrs['axes'])!r} is looked up for another array than the one it is applied to (the data has moved to a new position along the axes already summed)"
+                elif e[0] == "cumsum":
+                    got.append(("cumsum",))
+            if got != want:
+                bad = bad or f"operations {got}; expected {want} (each axis weighted by the metric requested for it)"
+        if bad:
+            ctx.report("R10.1", fi, inst, bad)
+        else:
+            ctx.ok("R10.1", inst, "each axis with its own weights, looked up for the array as it stands")
 
 
 def _pairing_public(ctx, P):
